@@ -27,6 +27,12 @@ CHECKS['C04'] = dict(text='Bounded symbolic execution of the real identifier quo
                   'token is emitted at each occurrence, that it decodes to the supplied name, and that the rest of the statement is unchanged.',
              note=TRUST_M + 'Oracle: quoted-identifier lexers (back-tick / double quote with doubling). Positions of INSERT/UPDATE/DELETE/WITH and of schema statements are covered when listed in the evidence `positions`.',
              technique='symbolic execution of rustc MIR with z3 deciding per-path assertions against reference lexers', ref='6/C04', engine=ENGINE_M)
+CHECKS['C11'] = dict(text='Bounded symbolic execution of the real CustomWithExpr renderer, Tokenizer, SqlWriterValues / inline writer and inject_parameters for every template of up to L Unicode scalar values '
+                  '(L=4 quick on the principal combinations and 3 on all, 5 thorough) with 2 symbolic values on the three backends, in inline, parameterised and inject_parameters(build) modes: z3 proves on every path that the output equals an '
+                  'independent reference substitution (placeholders outside quoted text replaced by the value they designate, doubled marks collapsed, everything else unchanged) and that the bound values are the designated ones in order.',
+             note=TRUST_M + 'Oracle: reference substitution + quoted-text scanner in props/c11.py. Preconditions (documented misuse otherwise): every placeholder designates an existing value; `$<digits><word char>` and `_$` excluded as ambiguous. '
+                  'Known finding: inject_parameters re-reads the literal mark produced by a doubled mark.',
+             technique='symbolic execution of rustc MIR with z3 deciding per-path equality with a reference substitution', ref='6/C11', engine=ENGINE_M)
 NA = {}
 def load_props():
     return [json.loads(l) for l in open(os.path.join(V, 'properties.jsonl'))]
